@@ -108,7 +108,9 @@ def explore(S, want=('C06', 'C04', 'C05'), depth=2):
 
 
 CORPUS = ['#{\n  a/* c */.b.c\n}\n', '#{\n  a./* c */b.c(1)\n}\n', '#{\n  a // c\n    .b.c(1)\n}\n', 'text #f(a/* c */.b)\n', 'text #f(a.b/* c */.c(1))\n', '*bold #f(a/* c */.b.c)*\n',
-          '#let x = cfg/* which */.page.at(0)\n', '#let x = cfg // pick\n  .page.at(0)\n', '#let x = state/* which */.pos.get(key)\n', '#{\n  a.b/* c */.c.d(1)\n}\n', 'text #{ a/* c */.b }\n']
+          '#let x = cfg/* which */.page.at(0)\n', '#let x = cfg // pick\n  .page.at(0)\n', '#let x = state/* which */.pos.get(key)\n', '#{\n  a.b/* c */.c.d(1)\n}\n', 'text #{ a/* c */.b }\n',
+          # inside lists that may be laid out flat
+          '#f(a/* c */.b.c, x)\n', '#(a // c\n  .b.c(1), 2)\n', '#f(g(a./* c */b.c(1)))\n', '$ #f(a/* c */.b) $\n', '#f[#a/* c */.b.c(1)]\n', '#let f(x: a/* c */.b) = 1\n']
 
 
 def native_sweep(S, prop):
